@@ -287,7 +287,7 @@ func H_C04_Manual(shape int) {
 		verifrt.Assert(s.OpenTx() == 0 && len(s.Durable) == 0, "C04.begin-failed-state")
 		return
 	}
-	var cur []int            // tokens written so far in the transaction
+	var cur []int             // tokens written so far in the transaction
 	saves := map[string]int{} // save point -> number of writes at that time
 	order := []string{}
 	for k := 0; k < nops; k++ {
